@@ -19,6 +19,7 @@ import (
 	"runtime"
 	"runtime/debug"
 	"strconv"
+	"strings"
 	"sync"
 	"sync/atomic"
 )
@@ -91,6 +92,7 @@ type Op struct {
 
 // Thread is one controlled goroutine.
 type Thread struct {
+	Origin   string // function containing the go statement that started the thread
 	lastKind string
 	lastObj  int
 	repeat   int
@@ -456,7 +458,7 @@ func (c *Controller) finish(o Outcome, self *Thread) {
 	c.res.Threads = len(c.threads)
 	for _, t := range c.threads {
 		if t.watch && len(t.worked) > 0 {
-			c.res.Watched = append(c.res.Watched, fmt.Sprintf("T%d:%v", t.ID, t.worked))
+			c.res.Watched = append(c.res.Watched, fmt.Sprintf("%s:%v", t.Origin, t.worked))
 		}
 	}
 	if o != Completed {
@@ -540,7 +542,30 @@ func GoNamed(name string, f func()) {
 
 		return
 	}
-	t.c.spawn(name, f)
+	nt := t.c.spawn(name, f)
+	// remember which function of the code under test contains the go statement (for reports)
+	for skip := 1; skip <= 3; skip++ {
+		pc, _, _, ok := runtime.Caller(skip)
+		if !ok {
+			break
+		}
+		fn := runtime.FuncForPC(pc).Name()
+		if strings.Contains(fn, "/vsched.") {
+			continue
+		}
+		if i := strings.LastIndex(fn, "/"); i >= 0 {
+			fn = fn[i+1:]
+		}
+		if i := strings.Index(fn, "."); i >= 0 {
+			fn = fn[i+1:]
+		}
+		for strings.HasSuffix(fn, ".func1") || strings.HasSuffix(fn, ".func2") || strings.HasSuffix(fn, ".func3") {
+			fn = fn[:len(fn)-6]
+		}
+		nt.Origin = fn
+
+		break
+	}
 }
 
 // Config of an exploration.
